@@ -145,8 +145,8 @@ type vfQrRun struct {
 	remotes  []func()
 	routeAsk int
 	newest   [2]any // the user made by the step just executed ("ln"/"dial"/"share", id), nil if it made none
-	passive  bool // confirmation mode, after the deviating step: the model no longer describes the real state
-	noRepair bool // confirmation mode, at the deviating step: do not put the count right
+	passive  bool   // confirmation mode, after the deviating step: the model no longer describes the real state
+	noRepair bool   // confirmation mode, at the deviating step: do not put the count right
 	viol     []vfQrViolation
 	l2       []vfQrViolation
 	retry    bool           // an allowed but different non-deterministic choice was made: run the walk again
